@@ -42,8 +42,12 @@ extern int mpt_object_args(MPT_INTERFACE(object) *obj, MPT_INTERFACE(iterator) *
 			
 			if (conv->_vptr->convert(conv, MPT_ENUM(TypeProperty), &pr) < 0
 			 || mpt_object_set_value(obj, pr.name, &pr.val) < 0) {
+				/* a refused named value is no bare option name */
 				pr.val._type = 0;
-				conv->_vptr->convert(conv, 's', &pr.name);
+				pr.name = 0;
+				if (conv->_vptr->convert(conv, 's', &pr.name) < 0 || !pr.name) {
+					return count ? count : MPT_ERROR(BadValue);
+				}
 			}
 		}
 		/* value is not assigned via property */
